@@ -249,6 +249,15 @@ impl<'a> Item<'a> {
                     let x = e.create();
                     let _ = e.delete(x);
                 }
+                // bulk creation, with a direct creation while the iterator is alive
+                let mut it = e.create_iter();
+                let a = it.next().unwrap();
+                let b = e.create();
+                let c = it.next().unwrap();
+                drop(it);
+                for x in [a, b, c] {
+                    let _ = e.delete(x);
+                }
                 n
             }
             Item::Lazy(l) => {
